@@ -911,7 +911,7 @@ func (r *c08Runner) run(c *c08Cell) {
 		if class == "ROk" {
 			r.res.bump("identity:minted")
 		} else if c08IdentityConfigured(autoUsers, nil, c.target) {
-			r.res.bump("identity:configured-but-refused")
+			r.res.bump("identity:configured-refused(requester-or-empty-identity)")
 		} else {
 			r.res.bump("identity:unconfigured-refused")
 		}
@@ -1784,7 +1784,8 @@ func TestVerif_C08(t *testing.T) {
 `)
 	{
 		expr := "None"
-		for i := len(cellShards) - 1; i >= 0; i-- {
+		// the shard with the largest offset <= i: its test must be the outermost one
+		for i := 0; i < len(cellShards); i++ {
 			sh := cellShards[i]
 			expr = fmt.Sprintf("if %d <=? i then nth_error %s (i - %d) else %s", sh.offset, sh.name, sh.offset, expr)
 		}
